@@ -27,24 +27,11 @@ def slice_source(p, v):
     return None
 
 
-def accepted_key(f, p, i, recv_id):
-    """Before event i the path established receive_item(..) = Ok(Some(key)); returns the key value or None."""
-    calls = {c['id']: c for c in p.calls()}
-    # receive_item -> map_err -> branch -> Continue.0 (Option<Key>) -> Some.0
-    me = [c for c in p.calls() if c['res'] == 'core::result::Result::map_err' and c['args'][0] == ('call', recv_id)]
-    if not me:
-        return None
-    br = [c for c in p.calls() if c['decl'].endswith('Try::branch') and c['args'][0] == ('call', me[0]['id'])]
-    if not br:
-        return None
-    cont = ('fieldv', ('call', br[0]['id']), '0', 'Continue')
-    ok_ = some = False
-    for c in q.conds_before(p, i):
-        if c['expr'][0] == 'discr' and c['expr'][1] == ('call', br[0]['id']):
-            ok_ = q.cond_variants(f, c) == {'Continue'}
-        if c['expr'][0] == 'discr' and c['expr'][1] == cont:
-            some = q.cond_variants(f, c) == {'Some'}
-    return ('fieldv', cont, '0', 'Some') if ok_ and some else None
+def accepted_key(f, p, i, recv_id, key):
+    """`key` is the `Some` payload of the `Ok` payload of receive_item #recv_id - however the Result/Option were
+    unwrapped (`.map_err(..)?` + `if let Some(key)`, or one `match` with Ok(Some(key)) / Ok(None) / Err arms)."""
+    opt = q.some_payload(p, key)
+    return opt is not None and q.ok_payload_of(p, opt) == recv_id
 
 
 def r1_acceptance(ctx, f, rep):
@@ -62,8 +49,7 @@ def r1_acceptance(ctx, f, rep):
                     good = bool(ri)
                     if good:
                         r = ri[-1]
-                        key = accepted_key(f, p, i, r['id'])
-                        good = key is not None and e['args'][1] == key
+                        good = accepted_key(f, p, i, r['id'], e['args'][1])
                         data = e['args'][2]
                         good = good and data[0] == 'call' and calls[data[1]]['res'] == 'alloc::slice::<impl [T]>::to_vec'
                         if good:
@@ -92,12 +78,13 @@ def r1_acceptance(ctx, f, rep):
                     ex = c['expr']
                     if ex[0] == 'call' and calls[ex[1]]['res'].endswith('is_empty') and q.cond_truth(c) is False:
                         nonempty = True
-                    if ex[0] == 'binop' and ex[1] == 'Gt' and q.cond_truth(c) is False and ex[2][0] == 'call' and \
-                            calls[ex[2][1]]['res'].endswith('::len'):
-                        rhs = ex[3]
-                        if q.loads_self_field(rhs, 'config', 'max_packet_size'):
+                    # `len <= bound` established, however the comparison is spelled (`!(len > b)`, `len <= b`, `b >= len`)
+                    is_len = lambda v: v[0] == 'call' and v[1] in calls and calls[v[1]]['res'].endswith('::len')
+                    nrm = q.cmp_norm(c)
+                    if nrm and nrm[0] == 'ge' and is_len(nrm[2]):
+                        if q.loads_self_field(nrm[1], 'config', 'max_packet_size'):
                             fits_pkt = True
-                        pr = q.peel(rhs)
+                        pr = q.peel(nrm[1])
                         if pr[0] == 'const' and pr[2] is not None and pr[2] <= 65535:
                             fits_u16 = True
                 rep.check(nonempty and fits_pkt and fits_u16 and e['args'][1] == ('param', 0, 2) and
@@ -260,6 +247,22 @@ class _Rel:
         return getattr(self._rep, n)
 
 
+def backlog_empty(p, calls, c):
+    """What a cond established about the custom-broadcast backlog: True (empty) / False (non-empty) / None.  Accepts
+    `custom_broadcast_backlog() == 0`, `custom_broadcasts.len() == 0`, `custom_broadcasts.is_empty()` in any spelling."""
+    is_backlog = lambda v: v[0] == 'call' and v[1] in calls and (
+        calls[v[1]]['res'] == 'Foca::custom_broadcast_backlog' or
+        (calls[v[1]]['res'] == 'broadcast::Broadcasts::len' and calls[v[1]]['args'][0] == ('ref', CB, False)))
+    z = q.zero_test(c, is_backlog)
+    if z:
+        return z == 'zero'
+    e0, t0 = q.norm_bool(c)
+    if e0[0] == 'call' and e0[1] in calls and calls[e0[1]]['res'] == 'broadcast::Broadcasts::is_empty' and \
+            calls[e0[1]]['args'][0] == ('ref', CB, False) and t0 is not None:
+        return t0
+    return None
+
+
 def r4_broadcast(ctx, f, rep):
     rep.rule('C16-R4', 'broadcast() returns before touching rng, choice_buf or the runtime when the backlog is empty; targets '
                        'come from choose_active_members(num_indirect_probes, handler.should_add_broadcast_data); only '
@@ -271,9 +274,8 @@ def r4_broadcast(ctx, f, rep):
         evs = p.events
         first = [c for c in p.conds()][:1]
         empty = None
-        if first and first[0]['expr'][0] == 'binop' and first[0]['expr'][1] == 'Eq' and first[0]['expr'][2][0] == 'call' and \
-                calls[first[0]['expr'][2][1]]['res'] == 'Foca::custom_broadcast_backlog' and first[0]['expr'][3][2] == 0:
-            empty = q.cond_truth(first[0])
+        if first:
+            empty = backlog_empty(p, calls, first[0])
         if empty is True:
             n += 1
             rep.check(len(p.calls()) == 1 and not p.writes() and p.ret[0] == 'agg' and p.ret[3] == 'Ok', 'C16-R4', b.nname,
@@ -307,9 +309,8 @@ def r4_broadcast(ctx, f, rep):
             nxt_pop = [k for k in range(i + 1, len(evs)) if evs[k]['kind'] == 'call' and evs[k]['res'] == 'alloc::vec::Vec::pop']
             if nxt_pop:
                 seg = evs[i + 1:nxt_pop[0]]
-                t = [c for c in seg if c['kind'] == 'cond' and c['expr'][0] == 'binop' and c['expr'][1] == 'Eq' and
-                     c['expr'][2][0] == 'call' and calls[c['expr'][2][1]]['res'] == 'Foca::custom_broadcast_backlog']
-                rep.check(len(t) == 1 and q.cond_truth(t[0]) is False, 'C16-R4', b.nname, 'another member is tried only while '
+                t = [x for x in (backlog_empty(p, calls, c) for c in seg if c['kind'] == 'cond') if x is not None]
+                rep.check(len(t) == 1 and t[0] is False, 'C16-R4', b.nname, 'another member is tried only while '
                           'the backlog is still non-empty', site=e['span'], construct='stop-when-drained')
     rep.floor('C16-R4', n, 4, 'broadcast() paths')
 
